@@ -121,7 +121,8 @@ def check_history(res, scn, *, resumed=False, props=("c18", "c08")):
     beta = [float(to_np(b)) for b in h.beta]
     pops = list(h.sample_history)
     if "c18" in props:
-        for k in SERIES:
+        series = SERIES + (["mcmc_autocorr"] if len(getattr(h, "mcmc_autocorr", [])) else [])
+        for k in series:
             ln = len(getattr(h, k))
             if ln != n:
                 out.append(
